@@ -243,20 +243,36 @@ func RunProperty(id, tier string) int {
 	// "unknown", never "sat") is retried with contracts ignored, spec functions revealed
 	// and loops unrolled, which is quantifier-free and yields a concrete model when the
 	// lemma is false for small unrollings.
+	// When a function contract fails, the lemmas that compose such contracts still pass
+	// (a caller only sees the callee's contract); they are then falsified as well, so that
+	// the violation comes with an input that fails on the real code.
+	funcFailed := false
+	for _, r := range runs {
+		if r.spec.Kind == "func" {
+			if r.err != nil {
+				funcFailed = true
+			}
+			for _, res := range r.results {
+				if !res.Obl.Cover && res.Status != Proved {
+					funcFailed = true
+				}
+			}
+		}
+	}
 	for _, r := range runs {
 		if r.err != nil || r.spec.Kind != "lemma" {
 			continue
 		}
 		need := map[string]*Result{}
 		for _, res := range r.results {
-			if !res.Obl.Cover && res.Status != Proved && res.Model == nil && res.Obl.Kind == "lemma" {
+			if !res.Obl.Cover && res.Obl.Kind == "lemma" && res.Model == nil && (res.Status != Proved || funcFailed) {
 				need[res.Obl.Name] = res
 			}
 		}
 		if len(need) == 0 {
 			continue
 		}
-		fopt := Options{Unroll: 11, NoPanic: false, NoContract: map[string]bool{}, Reveal: true, InlineAll: true, MaxInline: r.spec.MaxInline}
+		fopt := Options{Unroll: 2, NoPanic: false, NoContract: map[string]bool{}, Reveal: true, InlineAll: true, ModelElems: true, MaxInline: r.spec.MaxInline}
 		if r.spec.Unroll > fopt.Unroll {
 			fopt.Unroll = r.spec.Unroll
 		}
@@ -291,6 +307,9 @@ func RunProperty(id, tier string) int {
 		for _, fr := range fres {
 			if fr.Status == Refuted && fr.Model != nil {
 				orig := need[fr.Obl.Name]
+				if orig.Status == Proved {
+					orig.Output = "discharged modularly (callee contracts), but a contract of a callee failed; "
+				}
 				orig.Model = fr.Model
 				orig.Status = Refuted
 				orig.Obl.ModelTerms = fr.Obl.ModelTerms
